@@ -1,9 +1,10 @@
 \* C48 leg A thorough, family "time": grid 0..4; one series, all 121 chunk layouts x (136 interval lists of one
-\* request + 225 pairs of single-interval requests) = 43 681 inputs, all handed to leg B.
+\* request + 225 pairs of single-interval requests) = 43 681 inputs; leg B gets the 16 456 one-request inputs.
 SPECIFICATION Spec
 CONSTANTS Family = "time"
           G = 4
           LTwo = FALSE
+          EmitTwoRequests = FALSE
 INVARIANTS C48_ResultSatisfiesProperty FunctionalFormAgrees
 PROPERTY Progress
 CHECK_DEADLOCK TRUE
